@@ -215,7 +215,8 @@ let ref_op (x : obj) (c : cur) (ret : string option) : refres =
       { (same (union_sys xs { eqs = List.map snd cgs; ineqs = [] })) with claim = (if op = "add_congruences" then Exact else Sound); within_pre = true }
   | "intersection_assign" -> let y = arg () in same (union_sys xs y.gamma)
   | "upper_bound_assign" -> let y = arg () in { rdim = n; pieces = [ xs; y.gamma ]; claim = Best; within_pre = false }
-  | "upper_bound_assign_if_exact" | "integer_upper_bound_assign_if_exact" ->
+  | "integer_upper_bound_assign_if_exact" -> raise (Skip "integer semantics: judged on integer points in the main loop")
+  | "upper_bound_assign_if_exact" ->
       let y = arg () in
       (match ret with
        | Some "1" -> { rdim = n; pieces = [ xs; y.gamma ]; claim = Best; within_pre = false }
@@ -554,6 +555,30 @@ let ref_query line (x : obj) (c : cur) (ans : string list) =
        | Some _, _ -> rep ("C03:" ^ q) line Ok)
   | _ -> raise (Skip ("query " ^ q))
 
+(* ---- integer points of small shapes (untrusted evaluation; only used for integer_upper_bound_assign_if_exact) ---- *)
+let eval_lin (coefs : z list) (cst : z) (pt : int list) : z =
+  let rec go cs ps acc = match cs, ps with
+    | c :: cr, p :: pr -> go cr pr (Z.add acc (Z.mul c (z_of_int p)))
+    | c :: cr, [] -> go cr [] acc     (* coordinates beyond the dimension do not occur *)
+    | [], _ -> acc in
+  go coefs pt cst
+let sat_point (s : sys) (pt : int list) : bool =
+  List.for_all (fun (e : lin) -> eval_lin e.lcoefs e.lcst pt = Z0) s.eqs
+  && List.for_all (fun (c : cstr) -> match eval_lin c.coefs c.cst pt with Z0 -> not c.strict | Zpos _ -> true | Zneg _ -> false) s.ineqs
+let cube_sys n lo hi : sys =
+  { eqs = []; ineqs = List.concat (List.init n (fun i ->
+      [ { coefs = List.init n (fun j -> if i = j then z_of_int 1 else Z0); cst = z_of_int (- lo); strict = false };
+        { coefs = List.init n (fun j -> if i = j then z_of_int (-1) else Z0); cst = z_of_int hi; strict = false } ])) }
+let rec cube_points n lo hi : int list list =
+  if n = 0 then [ [] ] else
+    let rest = cube_points (n - 1) lo hi in
+    List.concat (List.init (hi - lo + 1) (fun v -> List.map (fun r -> (lo + v) :: r) rest))
+(* Some (points) when the set lies inside the cube [lo,hi]^n (decided by the verified inclusion test) *)
+let int_points n lo hi (s : sys) : int list list option =
+  match incl s (cube_sys n lo hi) with
+  | Some true -> Some (List.filter (sat_point s) (cube_points n lo hi))
+  | _ -> None
+
 (* ---- constructors ---- *)
 let ref_new (o : obj) (how : string) (c : cur) : refres =
   let n = o.dim in
@@ -660,6 +685,25 @@ let () =
                 rep ("C03:op-exn-unchanged:" ^ name) line (of_ob true "receiver lost points although the call threw" (incl pre.gamma post.gamma));
                 if !prop = "C04" && exact_car post then
                   rep ("C04:op-exn-unchanged:" ^ name) line (of_ob true "receiver changed although the call threw" (incl post.gamma pre.gamma))
+            | `Ok when name = "integer_upper_bound_assign_if_exact" && pre.dim <= 3 ->
+                (* integer semantics: compare the INTEGER points (shapes inside a small cube only) *)
+                let y = get (int_of_string (List.hd rest)) in
+                let n = pre.dim in
+                (match int_points n (-8) 12 pre.gamma, int_points n (-8) 12 y.gamma, int_points n (-8) 12 post.gamma with
+                 | Some px, Some py, Some pr ->
+                     bump "int-ub:judged";
+                     let mem p l = List.mem p l in
+                     let union = px @ List.filter (fun p -> not (mem p px)) py in
+                     (match !ret with
+                      | Some "1" ->
+                          rep "C03:op:integer_upper_bound_assign_if_exact/contains-integer-points" line
+                            (if List.for_all (fun p -> mem p pr) union then Ok else Fail "an integer point of an argument is not in the result");
+                          rep "C03:integer_upper_bound_assign_if_exact/true-is-integer-union" line
+                            (if List.for_all (fun p -> mem p union) pr then Ok else Fail "answered true but the result holds an integer point that is in neither argument")
+                      | _ ->
+                          rep "C03:op:integer_upper_bound_assign_if_exact/unchanged-on-false" line
+                            (if List.for_all (fun p -> mem p pr) px && List.for_all (fun p -> mem p px) pr then Ok else Fail "answered false but the integer points of the receiver changed"))
+                 | _ -> bump "int-ub:skipped-unbounded")
             | `Ok ->
                 (try
                   let rr = timed (fun () -> Some (ref_op pre { t = name :: rest } !ret)) None in
